@@ -268,6 +268,7 @@ func runC17(c *Check) {
 	c.ruleFreshEnvelopePerMessage("R6")
 	c.ruleNoGoroutineOnNotificationPath("R7")
 	c.ruleReadyIDStoredIsIDSent("R8")
+	c.ruleEveryQueuedMessageProcessed("R9")
 	c.ruleQueuedOnlyOnSend("R2", fChan)
 }
 
@@ -650,6 +651,9 @@ func runC18(c *Check) {
 	c.ruleFreshSessionPerConnect("R3", fHash)
 	c.ruleHandshakeCompleteAfterReadyWritten("R8", fHSC, c.P.Field("client", "RemoteClient", "handshakeCompleteChannel"))
 	c.ruleFailedMessageLeavesLoop("R10")
+	c.ruleResponseChannelFresh("R12")
+	c.ruleReconnectFlagClearedOnExit("R13")
+	c.ruleRegisterSignedLast("R14")
 	c.ruleConnectionFlagsReset("R9", map[string]*types.Var{"accepted": fAccepted, "handshakeComplete": fHSC})
 	// the functions that write to the connection are this property's mechanism ("never reported as sent
 	// without having been written"): the shared discipline rules run over them too
